@@ -468,6 +468,34 @@ def unicode_variant(d):
     return out
 
 
+def tail_variant(d, big=False):
+    """the same tree with a text node after every child element / comment / PI (its characters also occur in the markup of the sibling
+    before it) and, with big=True, one text longer than the 8 KB buffer of xml.etree"""
+    k = d['k']
+    if k in ('t', 'c', 'p'):
+        return d
+    out = dict(d)
+    kids = []
+    for c in d['c']:
+        kids.append(tail_variant(c, big))
+        if c['k'] in ('e', 'c', 'p') and k == 'e':
+            kids.append({'k': 't', 'v': '>%s b</' % c.get('n', 'x')})
+    if big and k == 'e' and not any(c['k'] == 'e' for c in d['c']):
+        kids.append({'k': 't', 'v': 'x' * 9000 + ' y'})
+    out['c'] = kids
+    return out
+
+
+def preorder_elements(d):
+    out = []
+    if d['k'] == 'e':
+        out.append(d)
+    for c in d.get('c', []):
+        if c['k'] in ('e', 'd'):
+            out.extend(preorder_elements(c))
+    return out
+
+
 def run_xml(unit, tier, acc):
     import lxml.etree as LX
     lib = unit['lib']
@@ -476,10 +504,12 @@ def run_xml(unit, tier, acc):
         if i % unit['parts'] != unit['part']:
             continue
         prof = tid.split('/')[0]
-        for as_doc, uni in ((False, False), (True, False), (False, True), (True, True)):
-            base = unicode_variant(desc) if uni else desc
+        for as_doc, uni in ((False, False), (True, False), (False, True), (True, True), (False, 'tails'), (True, 'tails'), (False, 'big')):
+            if uni == 'big' and (i // unit['parts']) % 8 != 0:
+                continue            # the 9000-character text on one tree in eight
+            base = unicode_variant(desc) if uni is True else tail_variant(desc, uni == 'big') if uni else desc
             if uni:
-                prof = tid.split('/')[0] + '+non-ascii'
+                prof = tid.split('/')[0] + ('+non-ascii' if uni is True else '+tails' if uni == 'tails' else '+long-text')
             d = TG.document(base) if as_doc else base
             try:
                 m = TG.materialize(d, lib)
@@ -512,6 +542,32 @@ def run_xml(unit, tier, acc):
             acc.cmp()
             if r2 != ('val', True):
                 acc.violation('C17|parse-xml-of-serialized-not-deep-equal|%s|%s|%s' % (lib, kind, prof), repr(text)[:120], {'observed': repr(r2)[:100]}, case)
+                continue
+            # every element node of the tree, not only its root: the text that follows an element is not part of it
+            for kth, sub in enumerate(preorder_elements(base), 1):
+                if kth == 1:
+                    continue
+                rs = ev('serialize((//*)[%d])' % kth, root=root)
+                acc.ev()
+                acc.cmp()
+                bad = None
+                if rs[0] != 'val' or not isinstance(rs[1], str):
+                    bad = ('serialize-xml-failed', repr(rs)[:120])
+                else:
+                    try:
+                        gots = canon_lxml(LX.fromstring(rs[1].encode('utf-8')))
+                        if gots != canon_desc(sub):
+                            bad = ('serialized-xml-differs-from-tree', repr(rs[1])[:120])
+                    except Exception as e:  # noqa
+                        bad = ('serialized-xml-not-well-formed', repr(rs[1])[:100] + ' ' + repr(e)[:60])
+                if bad is None:
+                    rd = ev('deep-equal(parse-xml($t)/*, (//*)[%d])' % kth, root=root, t=rs[1])
+                    acc.ev()
+                    if rd != ('val', True):
+                        bad = ('parse-xml-of-serialized-not-deep-equal', repr(rd)[:80])
+                if bad is not None:
+                    acc.violation('C17|%s|%s|inner-element|%s' % (bad[0], lib, prof), 'serialize((//*)[%d]) on %s' % (kth, TG.to_xml(d)[:120]), {'observed': bad[1]}, case)
+                    break
     acc.sample({'library': lib, 'tree': TG.to_xml(space[min(40, len(space) - 1)][1])[:100], 'check': 'deep-equal(parse-xml(serialize(.))/*, .)'}, limit=1)
 
 
